@@ -58,8 +58,12 @@ VARIABLES
 
 vars == <<lru, evcur, evstage, evqSize, files, nextFid, pc, loc, ops, nextCid, acked, live, clock, now, backend, crashed>>
 
+\* typed placeholders (TLC compares values of one type only)
+NoCap == [key |-> None, lsz |-> 0, dsz |-> 0, rnd |-> None, legacy |-> FALSE]
+NoFd == [key |-> None, state |-> "none", cid |-> None, lsz |-> 0, dsz |-> 0]
+
 NoLoc == [op |-> "none", key |-> None, item |-> [lsz |-> 0, dsz |-> 0], resv |-> 0, fid |-> None,
-          e |-> None, cap |-> None, fd |-> None, res |-> "none", cid |-> None, gen0 |-> 0, live0 |-> FALSE,
+          e |-> None, cap |-> NoCap, fd |-> NoFd, res |-> "none", cid |-> None, gen0 |-> 0, live0 |-> FALSE,
           mism |-> FALSE, unresv |-> FALSE, rmtmp |-> FALSE, known |-> TRUE, rcid |-> None, rkey |-> None,
           bitem |-> [lsz |-> 0, dsz |-> 0], bcid |-> None]
 
@@ -483,6 +487,11 @@ GetMissedLive(p) ==
 EvictsOnlyUnderPressure ==
   [][lru'.vict # <<>> /\ lru'.vict # lru.vict =>
        \E p \in Procs : pc[p] \in {"put_reserve", "put_commit", "get_lookup", "get_slow", "get_drop", "get_prereserve", "get_commit"}]_vars
+
+\* Liveness (under the fairness of Spec): every request comes to an end, and everything handed to the
+\* remover is eventually unlinked and accounted (C14 / C04 seen from the model)
+RequestsTerminate == \A p \in Procs : (pc[p] # "idle") ~> (pc[p] = "idle")
+RemoverCatchesUp  == (lru.evq # <<>> \/ evstage # "idle") ~> (lru.evq = <<>> /\ evstage = "idle")
 
 \* VIEW: the logical clock only matters through the order it induces on keys
 ClockRank == [k \in Keys |-> Cardinality({j \in Keys : clock[j] < clock[k]})]
